@@ -62,7 +62,9 @@ def native_in_subprocess(fn, *args, timeout=120):
 
 def finish(prop, tier, seed, recs, assumed, reg, wall, timeout_ms, bounded=()):
     known = load_known()
-    expected = load_expected().get(prop, [])
+    exp_all = load_expected()
+    # clauses proved on the unchanged tree in this tier (the thorough tier proves more than the quick tier)
+    expected = exp_all.get(tier, {}).get(prop, []) if ("quick" in exp_all or "thorough" in exp_all) else exp_all.get(prop, [])
     os.makedirs(os.path.join(OUT, prop), exist_ok=True)
     lines = []
     violations = []
